@@ -1,4 +1,5 @@
 import SpdxVerif.Props.C02
+import SpdxVerif.Props.Consts
 #print axioms Spdx.C02.matchLeaf_symm
 #print axioms Spdx.C02.matchLeaf_refl
 #print axioms Spdx.C02.lic_never_matches_ref
@@ -9,3 +10,5 @@ import SpdxVerif.Props.C02
 #print axioms Spdx.C02.unranged_matches_only_itself
 #print axioms Spdx.C02.orLater_counts_as_plus
 #print axioms Spdx.C02.pos_ignores_orLater
+#print axioms Spdx.ConstsPin.simplifyLicense_literals
+#print axioms Spdx.ConstsPin.parseLicense_literals
